@@ -23,22 +23,29 @@ def run(tier):
     quick = tier == 'quick'
     sets = []   # (label, impl, instances, enum)
     import copy
-    for cname in ('c01_regressions.txt', 'c01_final_scan_rounding.txt'):
+    for cname in ('c01_regressions.txt', 'c01_final_scan_rounding.txt', 'c01_static_cycle.txt', 'c01_weight_histories.txt'):
         corpus = L.load_corpus(cname)
         if corpus:
             sets.append(('corpus:' + cname, 'vpsc', corpus, False))
-            sets.append(('corpus-avoid:' + cname, 'avoid', copy.deepcopy(corpus), False))
+            if any(i['kind'] == 'I' for i in corpus):
+                sets.append(('corpus-avoid:' + cname, 'avoid', [i for i in copy.deepcopy(corpus) if i['kind'] == 'I'], False))
     nid = [0]
 
-    def gen(n, nmax, kind='I', hist=True):
+    def gen(n, nmax, kind='I', hist=True, weights=False):
         out = []
         for _ in range(n):
             nid[0] += 1
-            out.append(L.gen_instance(rng, nid[0], nmax, kind, hist))
+            out.append(L.gen_instance(rng, nid[0], nmax, kind, hist, weights))
         return out
     sets.append(('inc-vpsc', 'vpsc', gen(1500 if quick else 8000, 12), False))
     sets.append(('inc-avoid', 'avoid', gen(700 if quick else 4000, 12), False))
     sets.append(('static-vpsc', 'vpsc', gen(300 if quick else 1500, 12, 'S'), False))
+    # the static Solver on arbitrary multigraphs: cycles of total gap -1/0/+1 (infeasible ones must be REPORTED: the
+    # closing scan throws UnsatisfiedConstraint), random digraphs
+    sets.append(('static-cyclic', 'vpsc', gen(400 if quick else 3000, 8, 'SC'), False))
+    # histories that also change Variable::weight between solves (pin / unpin idiom)
+    sets.append(('inc-vpsc-weights', 'vpsc', gen(250 if quick else 2500, 10, 'I', True, True), False))
+    sets.append(('inc-avoid-weights', 'avoid', gen(120 if quick else 1200, 10, 'I', True, True), False))
     sets.append(('inc-vpsc-large', 'vpsc', gen(40 if quick else 600, 40), False))
 
     def gen_gp(n, nmax):
@@ -58,6 +65,11 @@ def run(tier):
         off = res.seed % 7
         exh = [e for i, e in enumerate(exh) if e['tag'] == 'exh2' and i % 7 == off]
     sets.append(('exhaustive-small', 'vpsc', exh, False))
+    exs = L.gen_exhaustive_static(tier)
+    if quick:
+        off = res.seed % 5
+        exs = [e for i, e in enumerate(exs) if i % 5 == off]
+    sets.append(('static-exhaustive-small', 'vpsc', exs, False))
 
     evals = 0
     nontrivial = set()
@@ -70,6 +82,7 @@ def run(tier):
     flagged_runs = 0
     errors = []
     times = {}
+    static_out = {'returned_all_satisfied': 0, 'reported_infeasible_system': 0, 'reported_feasible_system(known finding)': 0, 'other': 0}
     inv_states = [0, 0]   # model states on which the proved invariants were evaluated, ops with a failing state
     for label, impl, insts, enum in sets:
         real, drv, errs, dts = L.run_batch(insts, impl, tag='c01' + label, enum=enum)
@@ -106,6 +119,13 @@ def run(tier):
                 inv_states[1] += 0 if iv['ok'] else 1
             v = L.eval_c01(ins, rs, d, impl)
             known_here = False
+            if ins['kind'] == 'S' and rs:
+                if not v:
+                    static_out['returned_all_satisfied' if rs[0]['status'] == 'ok' else 'reported_infeasible_system'] += 1
+                elif v[0].get('fingerprint') == 'static_solver_throws_on_feasible_cycle':
+                    static_out['reported_feasible_system(known finding)'] += 1
+                else:
+                    static_out['other'] += 1
             for x in v:
                 x['set'] = label
                 if x.get('status') == 'throw_char' and d:
@@ -171,6 +191,7 @@ def run(tier):
                                                  'moveBlocks, after each block of splitBlocks, after each iteration of the satisfy loop, after each op; a failure is '
                                                  'reported as a correspondence difference'},
                     'oracle': {'violations': len(oracle_viol) - known_hits, 'runs_with_flagged_constraints': flagged_runs, 'detector_answers': det_stats},
+                    'static_solver_outcomes': static_out,
                     'set_times_s(harness,driver)': times, 'machinery_errors': errors[:5]})
     return res.finish()
 
